@@ -20,7 +20,7 @@ RULE = (
     "canonical Python. Names come from a pool built to defeat lexical shortcuts (value, avb, vv, nova, nota, andy, order, notify, _x, is_v ...) and "
     "are provided as method / property / plain attribute on machine, model or a listener (boolean-position names possibly on two providers). The "
     "expression(s) are used as cond= and/or unless= entries (1-3 entries); for >=5 drawn valuations (any truthy/falsy objects in boolean positions, "
-    "mutually comparable numbers under comparisons) the transition must fire iff all cond entries are truthy and all unless entries falsy under "
+    "mutually comparable numbers under comparisons, one in ten replaced by an unorderable value - where Python raises TypeError the send must raise it too and fire nothing) the transition must fire iff all cond entries are truthy and all unless entries falsy under "
     "Python's eval of the canonical text, and - single entry - the sequence of observable name reads (consecutive duplicates collapsed) must equal "
     "Python's. negative cases: unbalanced / truncated / empty strings, unsupported constructs (+, is, in, unary minus, calls, attribute access, "
     "subscripts, ternary, lambda, walrus ...) and unknown names (also on a later instance of a class whose earlier instance had the names) must raise InvalidDefinition from StateMachine() - no other exception type, and "
